@@ -82,6 +82,7 @@ type vfCFObs struct {
 	Asg  []vfCFAsg `json:"asg"`
 	Hard int       `json:"hard"`
 	Cpi  int       `json:"cpi"`
+	Rsc  []int     `json:"rsc,omitempty"` // scenario of the CFRace slice
 }
 
 type vfCFStepIn struct {
